@@ -213,6 +213,30 @@ def run(ctx):
             ok, _ = fe.proves(pg, b, i, ("a", "res.second"))
             ctx.check(ok, "R15.2", pg, "group-order-iff-inserted", "a group is appended to group_order_ although it may already exist (it would be listed twice)", (pg, n.get("ln")))
 
+    # who may write the creation-order lists: the creating functions append (above / R13.1); the move operations hand the
+    # whole list over; nothing else reorders, clears or rebuilds them (a rebuild from a name-sorted map loses the order)
+    for cls, fld, creators in ((NS + "parser", NS + "parser::group_order_", ("group",)), (NS + "group", NS + "group::order_", ("option", "multi_option", "toggle"))):
+        nwr = 0
+        for f in prog.methods_of(cls):
+            if not f.has_cfg:
+                continue
+            for (w, base, n2, b2, i2, how) in cg.field_writes(f):
+                if w != fld or base != "this":
+                    continue
+                nwr += 1
+                txt = fmt(n2.get("expr")) if how == "init" and isinstance(n2, dict) and "expr" in n2 else fmt(n2)
+                moved = re.search(r"move\(\w+\.%s\)" % re.escape(short(fld)), txt) is not None or re.search(r"swap\(.*%s" % re.escape(short(fld)), txt) is not None
+                if f.name in creators and re.search(r"\.(push_back|emplace_back)\(", txt):
+                    continue
+                if (f.kind == "ctor" and (f.flags.get("move_ctor") or f.flags.get("copy_ctor"))) or f.flags.get("move_assign") or f.flags.get("copy_assign"):
+                    if moved or re.fullmatch(r"\(?%s = \w+\.%s\)?" % (re.escape(short(fld)), re.escape(short(fld))), txt) or (how == "init" and re.fullmatch(r"\(?\w+\.%s\)?" % re.escape(short(fld)), txt)):
+                        continue
+                if f.kind == "ctor" and how == "init" and txt in ("vector{}", "{}", ""):
+                    continue
+                ctx.bad("R15.2", f, "order-list-rewritten:%s@%s" % (short(fld), n2.get("ln") if isinstance(n2, dict) else "?"),
+                        "%s changes the creation-order list %s with `%s`: only the creating function appends to it and a move hands it over whole; a list that is cleared, rebuilt "
+                        "or reordered no longer records the order of creation (usage() lists in a different order after it)" % (short(f.qual), short(fld), txt[:80]), f)
+        ctx.need("R15.2", "writes of %s" % short(fld), nwr, 1)
     # ---- R15.3
     used = set()
     for bid, i, e in usage.roots():
